@@ -212,6 +212,16 @@ func (lex *Lexer) Reset() {
 	lex.priorRune = [20]rune{}
 }
 
+// midToken reports whether the input consumed so far ends inside a
+// token that needs an explicit terminator.
+func (lex *Lexer) midToken() bool {
+	switch lex.state {
+	case LexerStrLit, LexerStrEscaped, LexerBacktickString, LexerRuneLit, LexerRuneEscaped:
+		return true
+	}
+	return false
+}
+
 func (lex *Lexer) EmptyToken() Token {
 	return Token{}
 }
